@@ -143,6 +143,53 @@ def facts():
     f["len_cons"] = (("component_len", "self.0.len()") in lf
                      and ("check_len", "self.1.check_len_against(self.component_len())") in lf
                      and ("check_len_against", "self.component_len()==len&&self.1.check_len_against(len)") in lf)
+    # ---- thread crossing: the where-clauses of the Send/Sync impls
+    from translate import impl_blocks
+
+    def where_of(rel, trait, ty):
+        src = read(rel)
+        for h, b in impl_blocks(src):
+            if re.search(r"\b%s\s+for\s+%s\b" % (trait, ty), h):
+                return norm(h)
+        raise ParseFailure("%s: impl %s for %s" % (rel, trait, ty))
+    ws = where_of("src/world/impl_send.rs", "Send", "World")
+    f["world_send_needs_components_send"] = "Registry:registry::Registry+Send" in ws and "Resources:Send" in ws
+    wy = where_of("src/world/impl_sync.rs", "Sync", "World")
+    f["world_sync_needs_components_sync"] = "Registry:registry::Registry+Sync" in wy and "Resources:Sync" in wy
+    it = where_of("src/query/result/iter.rs", "Send", "Iter")
+    f["iter_send_needs_views_send"] = bool(re.search(r"Views:[^,{]*\+Send", it))
+    en = where_of("src/query/entries.rs", "Send", "Entries")
+    f["entries_send_needs_views_send"] = bool(re.search(r"Views:[^,{]*Send", en))
+    pv = norm(read("src/query/view/par/mod.rs"))
+    f["parview_ref_needs_sync"] = ("ParView<'a>for&'aComponentwhereComponent:component::Component+Sync" in pv
+                                   and "ParView<'a>forOption<&'aComponent>whereComponent:component::Component+Sync" in pv)
+    f["parview_mut_needs_send"] = ("ParView<'a>for&'amutComponentwhereComponent:component::Component+Send" in pv
+                                   and "ParView<'a>forOption<&'amutComponent>whereComponent:component::Component+Send" in pv)
+    f["parviews_need_send"] = "pubtraitParViews<'a>:ParViewsSeal<'a>+Send" in pv and "pubtraitParView<'a>:ParViewSeal<'a>+Send" in pv
+    # references are views of component types: &C is Send iff C: Sync, &mut C is Send iff C: Send (std)
+    # ---- what the result of a query borrows: the receiver (then a second call is a borrow error) or the world
+    def sig(rel, fn_name, nth=0):
+        src = read(rel)
+        ms = list(re.finditer(r"pub\s+fn\s+%s\b" % fn_name, src))
+        if len(ms) <= nth:
+            raise ParseFailure("%s::%s" % (rel, fn_name))
+        i = ms[nth].start()
+        j = src.find("{", i)
+        return norm(src[i:j])
+    eq = sig("src/world/entry.rs", "query")
+    m = re.search(r"&'(\w+)mutself", eq)
+    f["world_entry_query_borrows_receiver"] = bool(m) and ("view::Views<'%s>" % m.group(1)) in eq
+    nq = sig("src/query/entries.rs", "query")
+    m = re.search(r"&'(\w+)mutself", nq)
+    f["entries_entry_query_borrows_receiver"] = bool(m) and ("view::Views<'%s>" % m.group(1)) in nq
+    wq = sig("src/world/mod.rs", "query")
+    m = re.search(r"&'(\w+)mutself", wq)
+    f["world_query_borrows_receiver"] = bool(m) and ("result::Iter<'%s," % m.group(1)) in wq and ("view::Views<'%s>" % m.group(1)) in wq
+    vr = sig("src/world/mod.rs", "view_resources")
+    m = re.search(r"&'(\w+)mutself", vr)
+    f["view_resources_borrows_receiver"] = bool(m) and ("ContainsViews<'%s," % m.group(1)) in vr
+    gm = sig("src/world/mod.rs", "get_mut")
+    f["get_mut_borrows_receiver"] = "(&mutself)->&mutResource" in gm
     return f
 
 
@@ -156,7 +203,11 @@ def emit(f):
               "new_calls_with_resources", "with_resources_calls_from_raw_parts", "default_calls_checked_ctor",
               "deserialize_calls_from_raw_parts", "assert_null_is_noop", "assert_cons_inserts_then_recurses",
               "batch_new_asserts_check_len_first", "batch_new_unchecked_is_unsafe", "batch_len_is_first_column",
-              "only_new_unchecked_builds_batch", "len_null", "len_cons"]:
+              "only_new_unchecked_builds_batch", "len_null", "len_cons",
+              "world_send_needs_components_send", "world_sync_needs_components_sync", "iter_send_needs_views_send",
+              "entries_send_needs_views_send", "parview_ref_needs_sync", "parview_mut_needs_send", "parviews_need_send",
+              "world_entry_query_borrows_receiver", "entries_entry_query_borrows_receiver", "world_query_borrows_receiver",
+              "view_resources_borrows_receiver", "get_mut_borrows_receiver"]:
         o.append("Definition fact_%s : bool := %s." % (k, b(f[k])))
     o.append("Definition world_literal_sites : list string := [%s]." % "; ".join('"%s"' % s for s in f["literal_sites"]))
     o.append("Definition batch_literal_sites : list string := [%s]." % "; ".join('"%s"' % s for s in f["batch_literal_sites"]))
